@@ -251,6 +251,8 @@ class FockBackend(BaseFock):
 
             indStr = "".join(ind) + "->" + keep_indices
             red_state = np.einsum(indStr, rho)
+            # the reduced state is always returned in the density-matrix representation
+            pure = False
 
             # permute indices of returned state to reflect the ordering of modes (we know and hence can assume that red_state is a mixed state)
         if modes != sorted(modes):
